@@ -681,6 +681,11 @@ func (mvcc *MVCCLevelDB) pessimisticLockMutation(batch *leveldb.Batch, mutation 
 			}
 			return dec.lock.lockErr(mutation.Key)
 		}
+		if dec.lock.op != kvrpcpb.Op_PessimisticLock {
+			// The key is already prewritten by this transaction: like TiKV, refuse
+			// instead of replacing the prewrite lock (and its value) by a pessimistic lock.
+			return ErrAbort("pessimistic lock request on a key already prewritten by the same transaction")
+		}
 	}
 
 	// For pessimisticLockMutation, check the corresponding rollback record, there may be rollbackLock
